@@ -109,6 +109,22 @@ fn gen_form(rng: &mut Rng, literals_with_parens: bool, defined: &mut Vec<String>
         5 => ("'(a (b c) #(1 2))".to_string(), "quoted-data"),
         6 => (format!("(vector {} 'x \"s\")", rng.range(0, 9)), "expression"),
         7 => ((*rng.pick(&["(car 5)", "(undefined-thing)", "(vector-ref (vector 1) 9)", "(/ 7 0)", "(\"f\" 1)"])).to_string(), "failing-runtime"),
+        8 if rng.chance(1, 4) => {
+            // a surplus closing parenthesis after a complete form that has an effect: the form
+            // is evaluated (its effect stays), then the error is reported
+            if rng.chance(1, 2) {
+                ("(display \"shown\"))".to_string(), "failing-syntax")
+            } else {
+                let name = format!("v{}", defined.len());
+                defined.push(name.clone());
+                (format!("(define {} {}))", name, rng.range(0, 99)), "failing-syntax")
+            }
+        }
+        8 if rng.chance(1, 4) => {
+            // the line ends right after a quote mark: no list is open, so the submission is
+            // evaluated now (and fails at its end); whatever stood before it was evaluated once
+            ("'".to_string(), "dangling-datum")
+        }
         8 => ((*rng.pick(&["(define)", "(if)", "(lambda)", "(let ((x)) x)", ")", "(+ 1 2) )"])).to_string(), "failing-syntax"),
         9 if rng.chance(1, 3) => {
             // a macro defined in the session, to be used by later submissions
@@ -176,7 +192,7 @@ fn generate_f(seed: u64, quick: bool) -> Value {
             let unbalanced = tokens(&f).iter().map(|t| depth_delta(t)).sum::<i32>() != 0;
             forms.push(f);
             kinds.push(k);
-            if unbalanced {
+            if unbalanced || k == "dangling-datum" {
                 // a stray parenthesis ends the submission: nothing else shares its line
                 break;
             }
